@@ -107,6 +107,14 @@ func enumThrottle(tier string, _ time.Time) *run.EnumResult {
 // oldest running callback, 'R' run the oldest released continuation.
 // It returns the ops enabled after the sequence.
 func runThrottleSeq(limit int, seq []byte, res *run.EnumResult) (ok bool, waited bool, enabled []byte) {
+	defer func() {
+		if r := recover(); r != nil {
+			if len(res.Found) < 5 {
+				res.Found = append(res.Found, run.EnumFound{Kind: "throttle", Msg: fmt.Sprintf("limit %d, sequence %s: panic: %v", limit, seq, r), Input: string(seq)})
+			}
+			ok, enabled = false, nil
+		}
+	}()
 	// release order: a slot per callback in the order the throttle released
 	// it (called directly by Add, or handed to a go statement by Done)
 	var slots []*int
